@@ -173,6 +173,11 @@ struct Case {
     bop: &'static str,
     bkey: &'static str,
     gap: usize,
+    /// what the same connection did before this transaction: 0 nothing, 1 MULTI + rejected command + DISCARD,
+    /// 2 MULTI + rejected command + EXEC (EXECABORT), 3 WATCH + UNWATCH, 4 MULTI + SET + DISCARD, 5 WATCH + MULTI + EXEC (empty body)
+    prelude: u8,
+    /// after the gap that follows WATCH, WATCH is sent again naming the watched keys (and one more): Redis keeps the first watch
+    rewatch: bool,
 }
 
 fn bop_cmds(kind: &str, key: &str) -> Vec<Argv> {
@@ -264,7 +269,7 @@ fn key_type(k: &str) -> &'static str {
 }
 
 fn case_json(c: &Case) -> Value {
-    json!({"shards": c.shards, "watch": c.watch, "body": c.body, "discard": c.discard, "bop": c.bop, "bkey": c.bkey, "gap": c.gap})
+    json!({"shards": c.shards, "watch": c.watch, "body": c.body, "discard": c.discard, "bop": c.bop, "bkey": c.bkey, "gap": c.gap, "prelude": c.prelude, "rewatch": c.rewatch})
 }
 
 fn case_from(v: &Value) -> Case {
@@ -277,6 +282,8 @@ fn case_from(v: &Value) -> Case {
         bop: st(v["bop"].as_str().unwrap_or("none")),
         bkey: st(v["bkey"].as_str().unwrap_or("s")),
         gap: v["gap"].as_u64().unwrap_or(0) as usize,
+        prelude: v["prelude"].as_u64().unwrap_or(0) as u8,
+        rewatch: v["rewatch"].as_bool().unwrap_or(false),
     }
 }
 
@@ -318,6 +325,19 @@ async fn run_case(rep: &mut Report, c: &Case) {
         let _ = must!(a.cmd(&p).await, "preload");
         let _ = t.cmd(&p).await;
     }
+    // earlier activity of the same connection must leave no trace in the next transaction
+    let prelude: Vec<Argv> = match c.prelude {
+        1 => vec![av(&["MULTI"]), av(&["NOSUCHCOMMAND", "x"]), av(&["DISCARD"])],
+        2 => vec![av(&["MULTI"]), av(&["GET"]), av(&["EXEC"])],
+        3 => vec![av(&["WATCH", "s", "l"]), av(&["UNWATCH"])],
+        4 => vec![av(&["MULTI"]), av(&["SET", "prelude-key", "never"]), av(&["DISCARD"])],
+        5 => vec![av(&["WATCH", "h"]), av(&["MULTI"]), av(&["EXEC"])],
+        _ => vec![],
+    };
+    for p in &prelude {
+        let _ = must!(a.cmd(p).await, "prelude");
+    }
+    rep.count(&format!("prelude:{}", c.prelude));
     let bops = bop_cmds(c.bop, c.bkey);
     let mut step = 0usize;
     let mut b_done = false;
@@ -348,6 +368,16 @@ async fn run_case(rep: &mut Report, c: &Case) {
         }
     }
     maybe_b!(); // gap 1: after WATCH
+    if c.rewatch && !c.watch.is_empty() {
+        // watching a key again does not re-baseline it: the first WATCH still decides
+        let mut w = vec![b("WATCH"), b("unrelated-watch")];
+        w.extend(c.watch.iter().map(|k| b(k)));
+        let r = must!(a.cmd(&w).await, "WATCH-again");
+        if r != Tree::Simple(b("OK")) {
+            viol!("watch-reply", format!("second WATCH replied {:?}", r));
+        }
+        rep.count("rewatch_cases");
+    }
     let r = must!(a.cmd(&av(&["MULTI"])).await, "MULTI");
     if r != Tree::Simple(b("OK")) {
         viol!("multi-reply", format!("MULTI replied {:?}", r));
@@ -514,7 +544,7 @@ pub fn txn_leg(args: &Args) {
                         if idx % args.shards != args.shard {
                             continue;
                         }
-                        let c = Case { shards: if idx % 2 == 0 { 1 } else { 4 }, watch: vec![wk], body: vec![1, 8], discard, bop, bkey: wk, gap };
+                        let c = Case { shards: if idx % 2 == 0 { 1 } else { 4 }, watch: vec![wk], body: vec![1, 8], discard, bop, bkey: wk, gap, prelude: (idx % 12).saturating_sub(6) as u8, rewatch: idx % 5 == 0 };
                         run_case(&mut rep, &c).await;
                         rep.count("matrix_cases");
                     }
@@ -536,6 +566,8 @@ pub fn txn_leg(args: &Args) {
                 bop: bops[rng.gen_range(0..bops.len())],
                 bkey: KEYS[rng.gen_range(0..KEYS.len())],
                 gap: rng.gen_range(0..nb + 4),
+                prelude: if rng.gen_bool(0.5) { 0 } else { rng.gen_range(1..6) },
+                rewatch: rng.gen_bool(0.25),
             };
             run_case(&mut rep, &c).await;
             if i < 3 {
